@@ -50,6 +50,9 @@ def build(g, t):
         if len(t) > 4:
             outer.append(build(g, t[4]))          # a predicate / state block reading the labels afterwards
         return g.action(g.seq(outer))
+    if k == "shadowp":    # a predicate (& or !) whose operand binds, at its top level, the name of an outer sibling label
+        inner = g.un(t[1], g.seq([g.label(build(g, t[3]), "k"), build(g, t[4])]))
+        return g.action(g.seq([g.label(build(g, t[2]), "k"), inner, g.label(build(g, t[5]), "v")]))
     if k == "perr":       # a predicate that returns an error together with its boolean
         return g.pred(t[1], t[2], err=True)
     if k == "pred":       # ("pred", negated, op)
